@@ -85,7 +85,12 @@ def merge_sliceto_slice(args):
             sorted_s.pop()
             out[1] = start
 
-        out_type = tab_size_int[max_size]
+        out_type = tab_size_int.get(max_size)
+        if out_type is None:
+            # a composition of a width no integer type has (24 bits..):
+            # the narrowest type that holds the piece
+            out_type = tab_size_int[min([s for s in tab_size_int
+                                         if s >= out[2]-out[1]])]
         out[0].arg = out_type(out[0].arg)
         final_sources.append((start, out))
 
@@ -229,19 +234,22 @@ def _expr_simp(e):
         while i<len(args)-1:
             j = i+1
             while j < len(args):
+                # (the cancellation rules need a constant 0 of the operands'
+                # width: not applicable to slices of a width no integer has)
+                can_zero = args[i].get_size() in tab_size_int
                 # A ^ A => 0
-                if op == '^' and args[i] == args[j]:
+                if op == '^' and can_zero and args[i] == args[j]:
                     args[i] = ExprInt(tab_size_int[args[i].get_size()](0))
                     del(args[j])
                     continue
                 # A + (- A) => 0
-                if op == '+' and isinstance(args[j], ExprOp) and args[j].op == "-":
+                if op == '+' and can_zero and isinstance(args[j], ExprOp) and args[j].op == "-":
                     if len(args[j].args) == 1 and args[i] == args[j].args[0]:
                         args[i] = ExprInt(tab_size_int[args[i].get_size()](0))
                         del(args[j])
                         continue
                 # (- A) + A => 0
-                if op == '+' and isinstance(args[i], ExprOp) and args[i].op == "-":
+                if op == '+' and can_zero and isinstance(args[i], ExprOp) and args[i].op == "-":
                     if len(args[i].args) == 1 and args[j] == args[i].args[0]:
                         args[i] = ExprInt(tab_size_int[args[i].get_size()](0))
                         del(args[j])
@@ -345,7 +353,8 @@ def _expr_simp(e):
     elif isinstance(e, ExprCompose):
         args = merge_sliceto_slice(e.args)
         # Compose(a) with a.size = compose.size => a
-        if len(args) == 1 and args[0][1] == 0 and args[0][2] == e.get_size():
+        if len(args) == 1 and args[0][1] == 0 and args[0][2] == e.get_size() \
+                and args[0][0].get_size() == e.get_size():
             return args[0][0]
 
         return ExprCompose(args)
